@@ -319,3 +319,8 @@ package schema
 //@   props C08
 //@   modifies fresh()
 //@   ensures[reader] result != nil && fresh(result)
+
+//@ func StreamReaderFromArray
+//@   props C08 C04
+//@   modifies fresh()
+//@   ensures[array_reader] result != nil && fresh(result) && result.typ == readerTypeArray && result.ar != nil && fresh(result.ar) && result.ar.index == 0 && result.ar.arr == arr
